@@ -19,6 +19,7 @@
 //! "xout": hex64 makes the recording SolOut answer ControlFlag::XOut(xout) from every callback (sparse-output mode of the low-level API).
 //! "stop_after": k makes the SolOut answer Interrupt from the k-th step callback.  method "RADAU" (low-level only) is supported for
 //! the abscissa / polynomial probes (resp = "poly").
+//! "resp": "lin" (see run_lin_job): adaptive RADAU run on y' = lambda y with the exact Jacobian; the accepted (t, y) are returned.
 //! "resp": "polydecay" is y_k' = t^k - y_k.
 //! "resp": "poly" replaces the impulse probe by the time-dependent problem y_k' = t^k; "h0": |first step| (default 1).
 //! All floats cross the boundary as 16-hex-digit tokens of their bits (the *_f fields are informational).
@@ -132,7 +133,71 @@ fn tol_of(v: &[f64]) -> Tolerance {
     if v.len() == 1 { Tolerance::Scalar(v[0]) } else { Tolerance::Vector(v.to_vec()) }
 }
 
+/// y' = lambda * y with the exact Jacobian: every accepted Radau IIA step must multiply y by the (2,3) Pade approximant R(h lambda).
+struct Lin {
+    lam: f64,
+}
+impl IVP for Lin {
+    fn ode(&self, _x: f64, y: &[f64], dydx: &mut [f64]) {
+        for (d, v) in dydx.iter_mut().zip(y.iter()) {
+            *d = self.lam * *v;
+        }
+    }
+    fn jac(&self, _x: f64, y: &[f64], j: &mut ivp::matrix::Matrix) {
+        for r in 0..y.len() {
+            for c in 0..y.len() {
+                j[(r, c)] = if r == c { self.lam } else { 0.0 };
+            }
+        }
+    }
+}
+
+/// job: {"id", "resp": "lin", "api", "lam": hex64, "x0": hex64, "xend": hex64, "rtol": hex64, "atol": [hex64]}  (RADAU, adaptive, default first step)
+fn run_lin_job(job: &Value) -> Value {
+    let id = job["id"].as_str().unwrap_or("").to_string();
+    let api = job["api"].as_str().unwrap_or("lowlevel").to_string();
+    let lam = untok(job["lam"].as_str().unwrap());
+    let x0 = untok(job["x0"].as_str().unwrap());
+    let xend = untok(job["xend"].as_str().unwrap());
+    let rtol = untok(job["rtol"].as_str().unwrap());
+    let atol = untok(job["atol"][0].as_str().unwrap());
+    let f = Lin { lam };
+    let y0 = [1.0];
+    let mut out = json!({"id": id, "api": api, "method": "RADAU"});
+    if api == "lowlevel" {
+        let mut rec = Recorder { xout: None, thetas: Vec::new(), dim: 1, events: Vec::new(), stop_after: None, nsteps: 0 };
+        let r = catch(|| RADAU::builder().build().solve(&f, x0, &y0, xend, Tolerance::Scalar(rtol), Tolerance::Scalar(atol), Some(&mut rec)));
+        match r {
+            Err(p) => out["panic"] = json!(p),
+            Ok(Err(e)) => out["error"] = json!(format!("{:?}", e)),
+            Ok(Ok(res)) => {
+                out["result"] = json!({"status": format!("{:?}", res.status), "naccpt": res.steps.accepted, "nrejct": res.steps.rejected, "nfev": res.evals.ode})
+            }
+        }
+        out["t"] = Value::Array(rec.events.iter().map(|e| e["x"].clone()).collect());
+        out["y"] = Value::Array(rec.events.iter().map(|e| e["y"][0].clone()).collect());
+    } else {
+        let r = catch(|| {
+            let opts = Options::builder().method(Method::RADAU).rtol(Tolerance::Scalar(rtol)).atol(Tolerance::Scalar(atol)).build();
+            solve_ivp(&f, x0, xend, &y0, opts)
+        });
+        match r {
+            Err(p) => out["panic"] = json!(p),
+            Ok(Err(e)) => out["error"] = json!(format!("{:?}", e)),
+            Ok(Ok(sol)) => {
+                out["result"] = json!({"status": format!("{:?}", sol.status), "naccpt": sol.naccpt, "nrejct": sol.nrejct, "nfev": sol.nfev});
+                out["t"] = json!(toks(&sol.t));
+                out["y"] = Value::Array(sol.y.iter().map(|r| json!(tok(r[0]))).collect());
+            }
+        }
+    }
+    out
+}
+
 fn run_job(job: &Value) -> Value {
+    if job["resp"].as_str() == Some("lin") {
+        return run_lin_job(job);
+    }
     let id = job["id"].as_str().unwrap_or("").to_string();
     let api = job["api"].as_str().unwrap_or("lowlevel").to_string();
     let method = job["method"].as_str().unwrap_or("").to_string();
